@@ -310,27 +310,29 @@ fn h_wait(site: u32, cond: &mut dyn FnMut() -> bool) {
     if sched::current().is_none() {
         return;
     }
-    if site == vs::JOIN {
-        // The joined thread's simulated end precedes its real exit by a few
-        // microseconds of real time: once it has ended in simulated terms,
-        // wait for the OS thread without involving the scheduler.
-        sched::wait_until(site, &mut || {
-            if cond() {
-                return true;
-            }
-            if sched::all_others_idle() {
-                for _ in 0..2000 {
-                    std::thread::sleep(std::time::Duration::from_micros(50));
-                    if cond() {
-                        return true;
-                    }
-                }
-            }
-            false
-        });
+    sched::wait_until(site, cond);
+}
+
+fn h_join(thread: std::thread::ThreadId, finished: &mut dyn FnMut() -> bool) {
+    if sched::current().is_none() {
         return;
     }
-    sched::wait_until(site, cond);
+    // Simulated part: wait until the joined thread has ended in simulated
+    // terms (a function of the schedule only).
+    match sched::sim_id_of(thread) {
+        Some(t) => sched::wait_until(vs::JOIN, &mut || sched::is_finished(t)),
+        None => {}
+    }
+    // Real part: the OS thread ends a few microseconds after its simulated
+    // end; wait for it without involving the scheduler.
+    let mut spins = 0u64;
+    while !finished() {
+        std::thread::sleep(std::time::Duration::from_micros(20));
+        spins += 1;
+        if spins > 500_000 {
+            report::harness_error("joined thread ended in simulated terms but its OS thread did not finish".to_string());
+        }
+    }
 }
 
 fn h_park(site: u32) {
@@ -406,6 +408,7 @@ static CORE_HOOKS: steel::verif::Hooks = steel::verif::Hooks {
     point: h_point,
     spin: h_spin,
     wait: h_wait,
+    join: h_join,
     park: h_park,
     unpark: h_unpark,
     force_collection: h_force_collection,
